@@ -197,6 +197,12 @@ pub fn install_panic_recorder() {
             "non-string panic".to_string()
         };
         let line = info.location().map(|l| l.line()).unwrap_or(0);
+        if std::thread::current().name() == Some("main") || std::env::var("RSV_SHOW_PANICS").is_ok() {
+            eprintln!("panic at {}:{}: {}", site, line, msg);
+        }
+        if let Ok(mut g) = GLOBAL_LAST_PANIC.lock() {
+            *g = Some((format!("{}:{}", site, line), msg.clone()));
+        }
         LAST_PANIC.with(|p| *p.borrow_mut() = Some((format!("{}:{}", site, line), msg)));
     }));
 }
@@ -208,8 +214,15 @@ pub fn install_panic_recorder_thread() {
     HOOK.call_once(install_panic_recorder);
 }
 
+/// last panic of any thread (for panics raised on rayon worker threads and re-thrown to the caller)
+static GLOBAL_LAST_PANIC: std::sync::Mutex<Option<(String, String)>> = std::sync::Mutex::new(None);
+
 pub fn take_last_panic() -> Option<(String, String)> {
     LAST_PANIC.with(|p| p.borrow_mut().take())
+}
+
+pub fn take_last_panic_any_thread() -> Option<(String, String)> {
+    take_last_panic().or_else(|| GLOBAL_LAST_PANIC.lock().ok().and_then(|mut g| g.take()))
 }
 
 /// Run `f` with hash seed `seed` on a fresh single-threaded rayon pool (fresh thread => fresh
